@@ -148,6 +148,9 @@ def real_call(c, outdir=None):
     return cols, vals, txt
 
 
+real_call = common.with_history(real_call)
+
+
 # ----------------------------------------------------------------------------- model output
 
 def parse_cols(txt):
@@ -389,11 +392,21 @@ def cross_check_spec(run, cases):
     return bad
 
 
+def sibling(rng, c):
+    """same frames, labels, cell, mask, bin width — other positions (gas)"""
+    if c.get("tie"):
+        return None
+    s = dict(c, config="gas")
+    Lf = [float(x) for x in c["box"]]
+    s["frames"] = [dict(f, pos=[[dec(rng, -0.5 * Lf[k], 1.5 * Lf[k]) for k in range(c["d"])] for _ in range(c["N"])]) for f in c["frames"]]
+    return s
+
+
 def correspond(run):
     n = 160 if run.tier == "quick" else 1500
     ntie = 20 if run.tier == "quick" else 150
     cases = common.load_corpus(PROP)
-    cases += [gen_case(run.rng, big=(i % 5 == 0)) for i in range(n)]
+    cases += common.add_siblings(run.rng, [gen_case(run.rng, big=(i % 5 == 0)) for i in range(n)], sibling, every=5)
     cases += [gen_case(run.rng, tie=True) for _ in range(ntie)]
     broken = []
     dis, fail = [], []
